@@ -27,7 +27,7 @@ type c14Case struct {
 func init() {
 	engine.Register(&engine.Check{
 		ID: "C14", Level: "exploration",
-		Rule:        "point sets of 1..4 points on the 4x4 grid; polylines of 2..4 vertices (repeated points allowed) and pairs of them; every SIMPLE ring (simplicity decided exactly) of 3..5 (thorough 6) vertices on the 4x4 grid in both directions and from every start vertex; polygons = every axis-parallel rectangle and lattice triangle on the 6x6 grid (thorough 8x8) as shell x lattice triangles / unit squares strictly inside as holes (<=1 quick, <=2 thorough), rings in every direction combination; multipolygons = pairs and triples of disjoint polygons, also handed to PolygonsCentroid as the member views of one multipolygon in every order (storage must stay bit-identical); zero-area polygons for the length-weighted fallback; offsets {0,1e5,2^30}; layouts with extra ordinates. Oracle: rational mean / length-weighted (256-bit sqrt) / area-weighted centroid within a forward error bound; IsRingCounterClockwise <=> exact signed area > 0; SignedArea = -(exact ccw area). distinct_nontrivial = distinct inputs with non-zero length or area Also: point sets and polylines with every count 1..70 and counts around powers of two, 4096/3 and 8192/3 up to 8193 (thorough 65537) in all four layouts. Round 7: two and three holes in every direction combination also in the quick tier; zero-area polygons that are not collinear (a bent path walked out and back) alone and beside a collinear member. Round 8: point sets also as MultiPoints with members without a position; geometries carry SRID 4326/3857 in half of the cases; tower rings of 4103 and 20003 (thorough 66003) coordinates as ring, polygon, polygon with hole and polyline. Round 9: every point set of 2..70 points also as Point values in XY/XYZ/XYZM/five ordinates in turn. Round 10: multi-lines of three and four members in which one member starts where the previous ends (every chain on the 3x3 grid).",
+		Rule:        "point sets of 1..4 points on the 4x4 grid; polylines of 2..4 vertices (repeated points allowed) and pairs of them; every SIMPLE ring (simplicity decided exactly) of 3..5 (thorough 6) vertices on the 4x4 grid in both directions and from every start vertex; polygons = every axis-parallel rectangle and lattice triangle on the 6x6 grid (thorough 8x8) as shell x lattice triangles / unit squares strictly inside as holes (<=1 quick, <=2 thorough), rings in every direction combination; multipolygons = pairs and triples of disjoint polygons, also handed to PolygonsCentroid as the member views of one multipolygon in every order (storage must stay bit-identical); zero-area polygons for the length-weighted fallback; offsets {0,1e5,2^30}; layouts with extra ordinates. Oracle: rational mean / length-weighted (256-bit sqrt) / area-weighted centroid within a forward error bound; IsRingCounterClockwise <=> exact signed area > 0; SignedArea = -(exact ccw area). distinct_nontrivial = distinct inputs with non-zero length or area Also: point sets and polylines with every count 1..70 and counts around powers of two, 4096/3 and 8192/3 up to 8193 (thorough 65537) in all four layouts. Round 7: two and three holes in every direction combination also in the quick tier; zero-area polygons that are not collinear (a bent path walked out and back) alone and beside a collinear member. Round 8: point sets also as MultiPoints with members without a position; geometries carry SRID 4326/3857 in half of the cases; tower rings of 4103 and 20003 (thorough 66003) coordinates as ring, polygon, polygon with hole and polyline. Round 9: every point set of 2..70 points also as Point values in XY/XYZ/XYZM/five ordinates in turn. Round 10: multi-lines of three and four members in which one member starts where the previous ends (every chain on the 3x3 grid). Round 12: every simple ring of 3..5 vertices on the 4x4 grid as the hole of a square shell.",
 		Run:         c14Run,
 		Replay:      func(c *engine.Ctx, kind string, raw json.RawMessage) { c14Exec(c, decodeCase[c14Case](raw)) },
 		Assumptions: []string{"valid polygons only (simple rings, holes strictly inside, disjoint members); polylines of non-zero total length"},
@@ -488,6 +488,11 @@ func c14Run(c *engine.Ctx) {
 				l := layouts[(i+k)%4]
 				c14Exec(c, c14Case{Mode: "ring", Layout: l, Rings: [][]ref.F{ringF(closed[:len(closed)], off)}})
 				c14Exec(c, c14Case{Mode: "polygons", Layout: l, Rings: [][]ref.F{ringF(closed, off)}, Counts: []int{1}})
+				// the same ring as a HOLE (convex or not, either direction, every start vertex) of a
+				// square shell around the grid, the shell in either direction
+				shell := rot([]ref.P2{{X: -1, Y: -1}, {X: 4, Y: -1}, {X: 4, Y: 4}, {X: -1, Y: 4}}, (i+k)%4, (i+k)%2 == 0)
+				c.Count("simple_rings_as_holes", 1)
+				c14Exec(c, c14Case{Mode: "polygons", Layout: l, Rings: [][]ref.F{ringF(shell, off), ringF(closed, off)}, Counts: []int{2}})
 			}
 		}
 	})
